@@ -102,6 +102,7 @@ Definition registry := list (string * reg).
 Inductive beh :=
 | BOk           (* returns its input wrapper *)
 | BModify       (* returns a new wrapper: its input with its own tag appended to the trace *)
+| BStrip        (* returns a new wrapper without any header / param (nil maps): empty trace *)
 | BFail         (* returns an error *)
 | BIgnored      (* returns a value that is no wrapper (skipped by the type assertion) *)
 | BNilFactory.  (* the factory returns a nil modifier: not added *)
@@ -211,7 +212,9 @@ Definition endpoint_stack (ss : sshape) (R : registry) (pe pb : pshape)
 (* The request / response value is observed through a trace: the list of tags of the
    modifiers that changed it so far (a header on the request, a metadata header on the
    response).  A BModify modifier returns a new wrapper carrying its input's trace plus its
-   own tag; BOk returns its input; BIgnored returns something that is no wrapper, which the
+   own tag; BStrip returns a new wrapper whose Headers()/Params() are nil (the copy-back
+   `r.Headers = tmp.Headers()` is unconditional: the stripped value reaches the next stage);
+   BOk returns its input; BIgnored returns something that is no wrapper, which the
    loop skips (`continue`: tmp keeps the previous value); BFail ends the loop. *)
 Definition tag := (level * nat)%type.
 Definition trace := list tag.
@@ -234,6 +237,7 @@ Fixpoint thread (lv : level) (l : mods) (v : trace) : list (nat * trace) * optio
       match b with
       | BFail => ([(p, v)], None)
       | BModify => let '(s, o) := thread lv rest (v ++ [(lv, p)])%list in ((p, v) :: s, o)
+      | BStrip => let '(s, o) := thread lv rest [] in ((p, v) :: s, o)
       | _ => let '(s, o) := thread lv rest v in ((p, v) :: s, o)
       end
   end.
@@ -270,3 +274,8 @@ Definition vbackend (t0 : option trace) : vproxy := fun v =>
    and the stages in between do not touch the two headers) *)
 Definition vstack (R : registry) (pe pb : pshape) (t0 : option trace) : vproxy :=
   plugin_vmw LEndpoint R pe (plugin_vmw LBackend R pb (vbackend t0)).
+
+(* defaultFactory.New wraps the stack with the plugin and static middlewares whatever the
+   endpoint's output encoding is (json, no-op, ...): the encoding is no argument of the stack *)
+Definition factory_stack (output_encoding : string) := endpoint_stack.
+Definition factory_vstack (output_encoding : string) := vstack.
